@@ -265,7 +265,7 @@ func ExecuteUpload(t *testing.T, plan *Plan, opts Opts) *RunResult {
 		v := Violation{Prop: "C18", Clause: clause, Class: class, Msg: msg}
 		if opts.Own == "" || opts.Own == "C18" {
 			res.Violations = append(res.Violations, v)
-			res.Log.Lines = append(res.Log.Lines, "VIOLATION "+v.String())
+			res.Log.Lines = append(res.Log.Lines, "VIOLATION "+firstLines(v.String(), 1))
 		}
 	}
 	var w *World
